@@ -739,11 +739,12 @@ func galDBParts(t *jTable, points []jPoint, queries []jQuery, results []qResult)
 			flags = append(flags, gbool(qw == nil || evalPred(qw, tk)))
 		}
 		var vals []string
-		if len(p.Vals) > 0 {
+		nv := p.numVals()
+		if len(nv) > 0 {
 			vals = append(vals, "(9, 1)")
 		}
 		for _, f := range []string{"a", "b", "c", "x"} {
-			if v, ok := p.Vals[f]; ok {
+			if v, ok := nv[f]; ok {
 				vals = append(vals, fmt.Sprintf("(%d, %s)", fieldID(f), gz(v)))
 			}
 		}
